@@ -168,7 +168,8 @@ RECIPES.update({
     'multi_channel_max_difference': dict(unit='chkpt', name='multi_channel_max_difference'),
     'allreduce_result': dict(unit='mpidrv', name='allreduce_result', opts=dict(free_calls={
         'MPI_Allreduce': (lambda em, n, args, dst: 'vp_mpi_allreduce(%s, %s)' % (em.emit(args[1]), em.emit(args[2])))})),
-    'chi_square_dof': dict(unit='chkpt', name='chi_square_dof', opts=dict(iter_vec='vec_mc_result')),
+    'chi_square_dof': dict(unit='chkpt', name='chi_square_dof', allow_unsigned_wrap=True, opts=dict(iter_vec='vec_plain_result',
+        operator_calls={('weighted_with_variance', 'operator()'): (lambda em, n, args, dst: 'vp_combine_mc(%s, &(%s), %s, %s)' % (dst, em.iter_parts(args[1])[0], em.iter_parts(args[1])[1], em.iter_parts(args[2])[1]))})),
     'mc_result_calls': dict(name='calls', cls='mc_result', self='mc_result'),
     'mc_result_non_zero_calls': dict(name='non_zero_calls', cls='mc_result', self='mc_result'),
     'mc_result_finite_calls': dict(name='finite_calls', cls='mc_result', self='mc_result'),
@@ -435,6 +436,14 @@ JOBS = [
          entry='h_weighted_with_variance_call', enforce='weighted_with_variance_call', af=['weighted_with_variance_call', 'mc_result_value', 'mc_result_variance', 'create_result'],
          structs=[dict(cls='mc_result', vec=True), dict(cname='weighted_with_variance', opaque=True)], globals='size_t vp_g_calls, vp_g_nz, vp_g_fc;',
          defines=['VP_NMAX=1048576', 'VP_CALLSMAX=1099511627776'], props=['C13', 'C12'], thorough_reals=['float']),
+    dict(name='weighted_equally', functions=['weighted_equally_call', 'mc_result_calls', 'mc_result_non_zero_calls', 'mc_result_finite_calls', 'mc_result_value', 'create_result', 'mc_result_ctor5'],
+         entry='h_weighted_equally_call', enforce='weighted_equally_call', af=['weighted_equally_call', 'mc_result_value', 'create_result'],
+         structs=[dict(cls='mc_result', vec=True), dict(cname='weighted_equally', opaque=True)], globals='size_t vp_g_calls, vp_g_nz, vp_g_fc; T vp_g_sum, vp_g_sumsq;',
+         defines=['VP_NMAX=1048576', 'VP_CALLSMAX=1099511627776'], props=['C13']),
+    dict(name='chi_square', functions=['chi_square_dof', 'mc_result_value', 'mc_result_variance'], entry='h_chi_square_dof', enforce='chi_square_dof',
+         af=['chi_square_dof', 'mc_result_value', 'mc_result_variance'], structs=_ST_VCHK[:4], preludes=['opaque.h'],
+         globals='size_t vp_cm_calls, vp_cm_lo, vp_cm_hi; const void *vp_cm_vec; T vp_g_E;', defines=['VP_NMAX=1048576'], props=['C13'],
+         trusted=['the accumulator functor is a logged stub returning any result (its contract: job weighted_with_variance)', 'n - 1 as an unsigned expression: for an empty range the code divides 0 by T(SIZE_MAX) (defined wrap, result 0)']),
     dict(name='dist1d', functions=['accumulator_dist_add_to_1d_distribution', 'accumulate', 'distribution_parameters_x_min', 'distribution_parameters_bin_size_x', 'distribution_parameters_bins_x'],
          specs=['accumulator_dist_add_to_1d_distribution', 'accumulate'], entry='h_accumulator_dist_add_to_1d_distribution', enforce='accumulator_dist_add_to_1d_distribution',
          replace=['accumulate'], structs=[dict(cls='distribution_parameters', vec=True), dict(cls='accumulator', cls_targs=['double', '1'], cname='accumulator_dist')],
